@@ -438,15 +438,17 @@ def firstUnused (es : List (Key × Arr α)) : Option Nat :=
 def upsert (es : List (Key × Arr α)) (k : Key) (a : Arr α) : List (Key × Arr α) :=
   if hasKey es k then es.map fun e => if e.1 == k then (k, a) else e else es ++ [(k, a)]
 
+/-- `array = dict(); if overwrite: try: array = dict(np.load(wfilename)) except IOError: pass` -/
+def baseArchive (existing : Option (NpzFile α)) (overwrite : Bool) : List (Key × Arr α) :=
+  if overwrite then (match existing with | some f => f.entries | none => []) else []
+
 /-- the `.npz` branch of `save`; returns the key used and the new archive -/
 def saveNpz (st : Option (Stats α)) (existing : Option (NpzFile α)) (key : Option Key)
     (compress overwrite : Bool) : Except Err (Key × NpzFile α) :=
   match saveGuard st with
   | .error e => .error e
   | .ok s =>
-    -- `array = dict(); if overwrite: try: array = dict(np.load(wfilename)) except IOError: pass`
-    let array : List (Key × Arr α) :=
-      if overwrite then (match existing with | some f => f.entries | none => []) else []
+    let array : List (Key × Arr α) := baseArchive existing overwrite
     let k? : Option Key :=
       match key with
       | some k => some k
